@@ -205,11 +205,12 @@ Value Endgame<kKPK>::strongSideScore(const Position& position) const
     Square strongPawn =
         position.piece_position(make_piece(strongSide, PAWN), 0);
 
+    // after bitbase::normalize the pawn is already seen from the strong side's perspective
     bitbase::normalize(strongSide, side, strongKingSq, strongPawn, weakKingSq);
     if (!bitbase::check(side, strongKingSq, strongPawn, weakKingSq))
-        return VALUE_POSITIVE_DRAW + Value(rank(normalize(strongPawn, strongSide)));
+        return VALUE_POSITIVE_DRAW + Value(rank(strongPawn));
 
-    return VALUE_KNOWN_WIN + Value(rank(normalize(strongPawn, strongSide)));
+    return VALUE_KNOWN_WIN + Value(rank(strongPawn));
 }
 
 template <>
